@@ -2,6 +2,10 @@ import Got.Model.Discipline
 import Got.Model.DisciplineProtos
 import Got.Lemmas.Discipline
 import Got.Lemmas.DisciplineProtos
+import Got.Lemmas.DiscMSQueue
+import Got.Lemmas.DiscWheel
+import Got.Lemmas.DiscWaitClose
+import Got.Lemmas.DiscCache
 /-
 C18 — goroutine-safe APIs are free of data races (publication discipline).
 
@@ -55,6 +59,59 @@ theorem C18_ants_accepted (acts : List AntsAct) (s : AntsState) (evs : List Ev)
 theorem C18_ants_race_free (acts : List AntsAct) (s : AntsState) (evs : List Ev)
     (h : AntsState.init.run acts = some (s, evs)) : RaceFree evs :=
   C18_discipline_sound evs (C18_ants_accepted acts s evs h)
+
+/-! ### Per-component theorems derived from the fine-grained models of the other properties
+
+The event trace of the plain field is defined by recursion over the action list of the component's own LTS
+(the same LTS whose correspondence with the real code C01 / C03 / C16 check step by step), so these theorems
+quantify over every execution of those models: any number of goroutines, any interleaving. -/
+
+/-- loom.Queue: `node.value` of every node — written by the pusher at allocation, published by the linking CAS,
+    read by Pop after the atomic load of the predecessor's `next` (events from the C01 model). -/
+theorem C18_msqueue_value_race_free (acts : List Got.Model.MSQueue.Act) (n : Nat) :
+    RaceFree (Got.Model.MSQueue.valueEvents n acts) :=
+  Got.Lemmas.DiscMSQueue.value_raceFree acts n
+
+/-- loom.Wheel: `wheelData.c` of every channel object, incl. the initial ones written by NewWheel's caller —
+    written before the slot swap/publication, read by requesters after the slot load and by the ticker at close
+    (events from the C03 model; any number of requesters, NewTimer/AfterFunc/Reset). -/
+theorem C18_wheel_chan_race_free (n step : Nat) (hn : 0 < n) (acts : List Got.Model.Wheel.Act) (c : Nat) :
+    RaceFree (Got.Model.WheelEvents.chanEvents n step c acts) :=
+  Got.Lemmas.DiscWheel.chan_raceFree n step hn acts c
+
+/-- loom.WaitClose: `closeChan` — written once under the mutex by whichever goroutine initialises or closes first,
+    read after an atomic load of a non-new state or under the mutex (events from the C16 model). -/
+theorem C18_waitclose_closeChan_race_free (acts : List Got.Model.WaitClose.Act) :
+    RaceFree (Got.Model.WaitCloseEvents.closeChanEvents Got.Model.WaitClose.init acts) :=
+  Got.Lemmas.DiscWaitClose.closeChan_raceFree acts
+
+/-- loom.WaitClose: the plain reads of `state` inside the mutex against its (atomic) writes, all inside the mutex. -/
+theorem C18_waitclose_state_race_free (acts : List Got.Model.WaitClose.Act) :
+    RaceFree (Got.Model.WaitCloseEvents.stateEvents Got.Model.WaitClose.init acts) :=
+  Got.Lemmas.DiscWaitClose.state_raceFree acts
+
+/-- negative controls on the WaitClose model: dropping the atomic load before the `closeChan` read, or reading
+    `state` plainly on the fast path, yields a rejected trace. -/
+theorem C18_waitclose_controls :
+    accepts (Got.Model.WaitCloseEvents.closeChanEventsG false Got.Model.WaitClose.init Got.Lemmas.DiscWaitClose.ctlActs) = false ∧
+    accepts (Got.Model.WaitCloseEvents.stateEventsG true Got.Model.WaitClose.init Got.Lemmas.DiscWaitClose.ctlActs) = false :=
+  ⟨Got.Lemmas.DiscWaitClose.ctl_closeChan_noLoad_rejected, Got.Lemmas.DiscWaitClose.ctl_state_fastPlain_rejected⟩
+
+/-- cachex: `Future.value/err` of every future — written by the resolving worker (or Set) before the atomic
+    `updateTime` store, the predecessor store and `wg.Done`; read by `Future.Get1/Get2` after `Wait` and by the
+    status check only after an `updateTime` load that returned non-zero (events from the C04–C06 model; every
+    configuration, every execution, every future). -/
+theorem C18_cache_future_race_free (cfg : Got.Model.Cache.Cfg) (acts : List Got.Model.Cache.Act)
+    (f : Got.Model.Cache.FutId) :
+    RaceFree (Got.Model.CacheEvents.errEvents cfg false f Got.Model.Cache.init acts) :=
+  Got.Lemmas.DiscCache.err_raceFree cfg acts f
+
+/-- negative control on the cachex model: with the OLD status check (err read before the IsZero test) a concrete
+    run of the model yields a rejected trace. -/
+theorem C18_cache_old_status_rejected :
+    accepts (Got.Model.CacheEvents.errEvents Got.Model.CacheEvents.ctlCfg true 0 Got.Model.Cache.init
+      Got.Model.CacheEvents.oldStatusRun) = false :=
+  Got.Lemmas.DiscCache.old_status_rejected
 
 /-- The pre-fix shapes are rejected by the discipline. -/
 theorem C18_old_ants_torn_rejected : accepts oldAntsTornTrace = false := by decide
